@@ -278,6 +278,36 @@ func faultedOriginTrees() []*sto.Spec {
 	}
 }
 
+// brokenSourceTrees are the directed trees of the round-7 family "a receive whose source fails is not a
+// receive": overlays with a deleted index whose lower layer is pre-populated (volatile and durable
+// index; memory, disk, packed, sharded and overlay upper layers; the overlay at the root and below
+// stores that hand it the caller's reader), plus stores without a second layer as controls.  A blob
+// that was removed (or never received) and whose re-upload breaks off or carries a wrong body stays
+// absent for fetch, ranged fetch, stat and enumerate.
+func brokenSourceTrees() []*sto.Spec {
+	ov := func(deleted string, lower, upper *sto.Spec) *sto.Spec {
+		var p map[string]any
+		if deleted != "" {
+			p = map[string]any{"deleted": deleted}
+		}
+		return sp("overlay", p, lower, upper)
+	}
+	return []*sto.Spec{
+		ov("", mem(), mem()),
+		ov("leveldb", sp("localdisk", nil), mem()),
+		ov("kv", sp("union", nil, mem(), sp("localdisk", nil)), sp("diskpacked", map[string]any{"meta": "leveldb"})),
+		ov("", mem(), sp("shard", nil, mem(), mem())),
+		ov("", mem(), ov("", mem(), mem())),
+		ov("sqlite", mem(), sp("localdisk", nil)),
+		sp("cond", nil, ov("", mem(), mem()), mem()),
+		sp("replica", nil, ov("", mem(), mem()), mem()),
+		sp("proxycache", map[string]any{"cacheBytes": 1 << 20}, ov("", mem(), mem())),
+		sp("namespace", map[string]any{"sibling": "no"}, mem()),
+		sp("diskpacked", map[string]any{"maxFileSize": 2000, "meta": "leveldb"}),
+		sp("localdisk", nil),
+	}
+}
+
 func leafSub(rng *rand.Rand) *sto.Spec {
 	switch rng.Intn(3) {
 	case 0:
@@ -328,6 +358,16 @@ func withBig(rng *rand.Rand, u []sto.Blob) []sto.Blob {
 	return u
 }
 
+// nestedKind reports whether a node below the root of s has the given kind.
+func nestedKind(s *sto.Spec, kind string) bool {
+	for _, k := range s.Kids {
+		if hasKind(k, kind) {
+			return true
+		}
+	}
+	return false
+}
+
 func hasKind(s *sto.Spec, kind string) bool {
 	if s.Kind == kind {
 		return true
@@ -342,7 +382,7 @@ func hasKind(s *sto.Spec, kind string) bool {
 
 func main() {
 	ev.Main("C01", "exploration",
-		"seeded operation histories (receive/fetch/subfetch/stat/enumerate/remove/reopen, 40-200 ops) over every backend and seeded compositions (incl. overlay/union below the root filled by a nested preload, replicas with a distinct read set holding hidden blobs in a write-only backend, sibling namespaces judged by a second reference map, re-creation of composite trees), each result compared with a reference map and a full audit every 8 ops; universes always hold the 0-byte blob and, in one history per backend / every second history of a tree containing cond, blobs above schema.MaxSchemaBlobSize+1 up to the 16 MiB cap; every tree that contains a blobpacked store also receives hand-written file schemas of >= 512 KiB whose parts are not what perkeep's own writer produces (parts shorter than the blob they name, the same chunk under two part sizes, over-long parts, offsets, sparse parts, short parts inside a nested bytes schema, a prefix of a blob another file or the random universe also uses; 14 variants rotated over directed trees with blobpacked at the root and below cond/replica/namespace/proxycache/overlay/shard/blobpacked), every blob involved staying under the same reference map; files that name one chunk several times with other chunks after the repeat (5 variants: A B A C, A A B C, runs of one short chunk, two repeated chunks, the repeat inside a nested bytes schema) are delivered alone to directed blobpacked trees, observed packed (a zip appears in the large store) and every blob of them is fetched and range-fetched afterwards; trees with a read-only union where a proxycache / overlay / cond writes refuse every receive and the refused blob is read back in every way at once (it stays absent); below proxycache, single receives fail in the only receiving leaf (before or after the leaf stored the blob) and the blob must then be consistently present or consistently absent for fetch, ranged fetch, stat and enumerate; ranged fetches include the documented boundaries (offset == size, length 0, the empty blob, off+len beyond the blob and beyond int64) on every SubFetch-capable root; distinct = (backend spec, history hash); non-trivial = history contains >=1 remove or refusal, >=1 re-receive and >=3 enumerations",
+		"seeded operation histories (receive/fetch/subfetch/stat/enumerate/remove/reopen, 40-200 ops) over every backend and seeded compositions (incl. overlay/union below the root filled by a nested preload, replicas with a distinct read set holding hidden blobs in a write-only backend, sibling namespaces judged by a second reference map, re-creation of composite trees), each result compared with a reference map and a full audit every 8 ops; universes always hold the 0-byte blob and, in one history per backend / every second history of a tree containing cond, blobs above schema.MaxSchemaBlobSize+1 up to the 16 MiB cap; directed overlay trees (pre-populated lower layer, deleted index of every kind; at the root and nested) and plain stores see receives whose source fails (a body that does not hash to the ref, an upload broken off half-way) of blobs that were removed through the tree, never received or present: the reference map is unchanged by them and the blob is read back in every way at once; every tree that contains a blobpacked store also receives hand-written file schemas of >= 512 KiB whose parts are not what perkeep's own writer produces (parts shorter than the blob they name, the same chunk under two part sizes, over-long parts, offsets, sparse parts, short parts inside a nested bytes schema, a prefix of a blob another file or the random universe also uses; 14 variants rotated over directed trees with blobpacked at the root and below cond/replica/namespace/proxycache/overlay/shard/blobpacked), every blob involved staying under the same reference map; files that name one chunk several times with other chunks after the repeat (5 variants: A B A C, A A B C, runs of one short chunk, two repeated chunks, the repeat inside a nested bytes schema) are delivered alone to directed blobpacked trees, observed packed (a zip appears in the large store) and every blob of them is fetched and range-fetched afterwards; trees with a read-only union where a proxycache / overlay / cond writes refuse every receive and the refused blob is read back in every way at once (it stays absent); below proxycache, single receives fail in the only receiving leaf (before or after the leaf stored the blob) and the blob must then be consistently present or consistently absent for fetch, ranged fetch, stat and enumerate; ranged fetches include the documented boundaries (offset == size, length 0, the empty blob, off+len beyond the blob and beyond int64) on every SubFetch-capable root; distinct = (backend spec, history hash); non-trivial = history contains >=1 remove or refusal, >=1 re-receive and >=3 enumerations",
 		run)
 }
 
@@ -351,6 +391,7 @@ func run(r *ev.Run) {
 	r.Assume("reference model = Go map from blobref to bytes, written from the property statement")
 	r.Assume("stores that document a refusal of remove/receive (encrypt, union, cond without remove) are modelled as refusing without state change")
 	r.Assume("a receive that returned an error because a lower store failed leaves the blob either present or absent (the first later read decides), and every later read agrees with that; a receive refused by a read-only store changes nothing")
+	r.Assume("a receive whose SOURCE failed before the store had the blob's bytes (a body that does not hash to the ref, an upload that breaks off half-way) is not a receive: the reference map is unchanged by it, whatever error the store reports")
 	r.Assume("blob.SubFetcher documents ErrOutOfRangeOffsetSubFetch only for an offset that goes over the blob's size: offset == size and length == 0 are valid empty ranges of a present blob")
 	root := ev.Scratch("c01")
 	defer os.RemoveAll(root)
@@ -390,6 +431,10 @@ func run(r *ev.Run) {
 	}
 	for _, s := range faultedOriginTrees() {
 		jobs = append(jobs, job{s, r.Pick(3, 8), false, -1, "faulted"})
+	}
+	// round-7 directed family (appended last again)
+	for _, s := range brokenSourceTrees() {
+		jobs = append(jobs, job{s, r.Pick(2, 5), false, -1, "broken"})
 	}
 	// histories are independent (own scratch dir, own PRNG stream keyed by case): a small pool runs them
 	type hcase struct {
@@ -457,6 +502,13 @@ func run(r *ev.Run) {
 	// a blob that was absent and was read back in every way right afterwards
 	r.Require("events", "refused-receive-through-proxycache", "refused-receive-through-overlay", "refused-receive-through-cond",
 		"faulted-receive-of-absent-blob:error", "faulted-receive-of-absent-blob:error-after-effect")
+	// receives whose source failed (every kind), of a blob that lives in a pre-populated lower layer and
+	// had been removed through the tree, each read back in every way right afterwards; the same through a
+	// nested overlay, of a blob that was never there and of a blob that is present
+	for _, k := range sto.BrokenKinds() {
+		r.Require("events", "broken-receive-of-removed-preloaded-blob:"+k, "broken-receive-of-removed-preloaded-blob-through-nested-overlay:"+k,
+			"broken-receive-of-never-received-blob:"+k, "broken-receive-of-present-blob:"+k)
+	}
 	// every root kind that implements blob.SubFetcher saw the documented boundary ranges on present blobs
 	for _, kind := range []string{"memory", "localdisk", "diskpacked", "blobpacked", "proxycache"} {
 		for _, cat := range []string{"off==size", "len==0", "empty-blob", "clipped", "off>size", "huge-length"} {
@@ -771,6 +823,52 @@ func runHistory(r *ev.Run, root, id string, spec *sto.Spec, single bool, h int, 
 			}
 		}
 	}
+	// round 7: receives whose source fails.  The reference map is not touched; the blob is read back in
+	// every way right afterwards (probe) and again by every later audit.
+	isPre := map[blob.Ref]bool{}
+	for _, p := range preloaded {
+		isPre[p.Ref] = true
+	}
+	brokenRecv := func(bl sto.Blob, kind string) {
+		_, was := c.Present[bl.Ref]
+		log("receive-broken", bl.String(), kind)
+		failed := c.ReceiveBroken(bl, kind)
+		r.Count("broken_receives", 1)
+		if failed {
+			switch {
+			case was:
+				r.Note("events", "broken-receive-of-present-blob:"+kind)
+			case removed[bl.Ref] && isPre[bl.Ref]:
+				r.Count("broken_receives_of_removed_preloaded_blobs", 1)
+				r.Note("events", "broken-receive-of-removed-preloaded-blob:"+kind)
+				r.Note("broken_receive_of_removed_preloaded_blob_under", spec.Kind)
+				if nestedKind(spec, "overlay") {
+					r.Note("events", "broken-receive-of-removed-preloaded-blob-through-nested-overlay:"+kind)
+				}
+			case removed[bl.Ref]:
+				r.Note("events", "broken-receive-of-removed-blob:"+kind)
+			default:
+				r.Note("events", "broken-receive-of-never-received-blob:"+kind)
+			}
+		}
+		probe(bl)
+	}
+	if mode == "broken" && c.Caps.Remove && c.Caps.Receive {
+		// directed: blobs that live in the pre-populated part are removed through the tree, then their
+		// re-upload fails - once per kind of failure
+		for i, kind := range sto.BrokenKinds() {
+			if i >= len(preloaded) || c.Dead {
+				break
+			}
+			bl := preloaded[i]
+			log("remove", fmt.Sprintf("1 refs starting %s", bl), "before a broken receive")
+			removed[bl.Ref] = true
+			nRemove++
+			r.Note("events", "remove")
+			c.Remove([]sto.Blob{bl})
+			brokenRecv(bl, kind)
+		}
+	}
 	for i := 0; i < nops && !c.Dead && reported < 5; i++ {
 		k := rng.Intn(100)
 		q := -1
@@ -809,6 +907,22 @@ func runHistory(r *ev.Run, root, id string, spec *sto.Spec, single bool, h int, 
 					r.Note("crafted_under", spec.Kind)
 				}
 			}
+		case k < 30 && mode == "broken" && rng.Intn(2) == 0:
+			// the source of this receive fails; every second time of a blob that was removed (if any)
+			bl := pick()
+			if rng.Intn(2) == 0 {
+				var cand []sto.Blob
+				for _, u := range universe {
+					if _, p := c.Present[u.Ref]; !p && removed[u.Ref] {
+						cand = append(cand, u)
+					}
+				}
+				if len(cand) > 0 {
+					bl = cand[rng.Intn(len(cand))]
+				}
+			}
+			kinds := sto.BrokenKinds()
+			brokenRecv(bl, kinds[rng.Intn(len(kinds))])
 		case k < 30:
 			bl := pick()
 			log("receive", bl.String(), "")
